@@ -151,6 +151,8 @@ class Ctx(object):
         known, _ = load_known()
         self.known = {sig: what for (p, sig, what) in known if p == pid}
         self.session_excluded = set()
+        self.shard_id = int(os.environ.get('VERIF_SHARD_ID', '0'))
+        self.shards = int(os.environ.get('VERIF_SHARDS_N', '1'))
 
     # ---- bookkeeping --------------------------------------------------
     def subcount(self, sub, key, n=1):
@@ -262,6 +264,9 @@ class Ctx(object):
         }
         os.makedirs(os.path.join(OUT, 'evidence'), exist_ok=True)
         path = os.path.join(OUT, 'evidence', '%s.json' % self.pid)
+        if self.shards > 1:
+            ev['_digests'] = sorted(self.nontrivial_digests)
+            path = os.path.join(OUT, 'evidence', '.%s.shard%d.json' % (self.pid, self.shard_id))
         with open(path, 'w') as fh:
             json.dump(ev, fh, indent=1, sort_keys=True)
         print('%s tier=%s seed=%d evaluations=%d distinct_nontrivial=%d violations=%d known=%d harness_errors=%d wall=%.1fs'
@@ -331,7 +336,7 @@ def run_hypothesis(ctx, sub, strategy, prop, max_examples, rounds=3, shrink_budg
                         derandomize=False, report_multiple_bugs=False, print_blob=False,
                         suppress_health_check=list(HealthCheck),
                         phases=[Phase.generate, Phase.shrink])(test)
-        test = seed(ctx.seed * 1000 + rnd)(test)
+        test = seed(ctx.seed * 1000 + rnd + 7919 * ctx.shard_id)(test)
         try:
             test()
         except _PropertyFailed:
@@ -364,6 +369,8 @@ def run_hypothesis(ctx, sub, strategy, prop, max_examples, rounds=3, shrink_budg
 
 def run_cases(ctx, sub, cases, prop, stop_after=3, case_timeout=120):
     """Drive prop over an explicit (ordered, smallest-first) iterable of cases."""
+    if ctx.shard_id != 0:
+        return
     found = 0
     for case in cases:
         try:
@@ -406,7 +413,7 @@ def run_regressions(ctx, mod):
     """Seconds-long replay tier: every saved case under /verif/regressions/<ID>-*.json (former false alarms of the
     harness, shrunk counterexamples of repaired defects) is re-executed through the property function, bypassing Hypothesis."""
     import glob
-    if getattr(ctx, 'only', None):
+    if getattr(ctx, 'only', None) or ctx.shard_id != 0:
         return
     for path in sorted(glob.glob(os.path.join(VERIF, 'regressions', '%s-*.json' % ctx.pid))):
         rp = json.load(open(path))
@@ -429,6 +436,60 @@ def run_regressions(ctx, mod):
 # main
 # ---------------------------------------------------------------------------
 
+def run_sharded(pid, args, seed, nshards, level):
+    """Thorough tier: the Hypothesis sub-checks run in `nshards` processes with different derived seeds (pool-based
+    sub-checks - exhaustive trees, Monte-Carlo, cross-process batches - run in shard 0 only); evidence is merged."""
+    import subprocess, glob
+    t0 = time.time()
+    procs = []
+    for i in range(nshards):
+        env = dict(os.environ, VERIF_SHARD_ID=str(i), VERIF_SHARDS_N=str(nshards), VERIF_SEED=str(seed))
+        cmd = [sys.executable, os.path.join(VERIF, 'check'), pid, '--tier', args.tier] + (['--only', args.only] if args.only else [])
+        procs.append(subprocess.Popen(cmd, env=env, stdout=subprocess.PIPE, stderr=subprocess.STDOUT, text=True))
+    rc = 0
+    for i, p in enumerate(procs):
+        out, _ = p.communicate()
+        for line in out.splitlines():
+            if line.startswith(('VIOLATION', 'KNOWN-FINDING', 'HARNESS-ERROR', '  ')):
+                print(line)
+        if p.returncode == 1:
+            rc = 1
+        elif p.returncode != 0 and rc == 0:
+            rc = 2
+    merged = None
+    digests = set()
+    for f in sorted(glob.glob(os.path.join(OUT, 'evidence', '.%s.shard*.json' % pid))):
+        ev = json.load(open(f))
+        os.remove(f)
+        digests |= set(ev.pop('_digests', []))
+        if merged is None:
+            merged = ev
+            continue
+        c, m = ev['coverage'], merged['coverage']
+        m['evaluations'] += c['evaluations']
+        for k in ('class_histogram', 'known_finding_hits', 'inconclusive'):
+            for kk, v in c.get(k, {}).items():
+                m[k][kk] = m[k].get(kk, 0) + v
+        for sub, d in c.get('per_subcheck', {}).items():
+            for kk, v in d.items():
+                m['per_subcheck'].setdefault(sub, {})[kk] = m['per_subcheck'].get(sub, {}).get(kk, 0) + (v if kk == 'evaluations' else 0)
+        m['harness_errors'] += c.get('harness_errors', [])
+        m['violations_found'] += c.get('violations_found', [])
+        m['samples'] = (m['samples'] + c.get('samples', []))[:12]
+        merged['violations'] += ev.get('violations', 0)
+    if merged is None:
+        print('HARNESS-ERROR property=%s no shard produced evidence' % pid)
+        return 2
+    merged['coverage']['distinct_nontrivial'] = len(digests)
+    merged['coverage']['shards'] = nshards
+    merged['wall_s'] = round(time.time() - t0, 3)
+    with open(os.path.join(OUT, 'evidence', '%s.json' % pid), 'w') as fh:
+        json.dump(merged, fh, indent=1, sort_keys=True)
+    print('%s tier=%s seed=%d shards=%d evaluations=%d distinct_nontrivial=%d violations=%d wall=%.1fs'
+          % (pid, args.tier, seed, nshards, merged['coverage']['evaluations'], len(digests), merged['violations'], merged['wall_s']))
+    return rc
+
+
 def main(argv=None):
     import argparse
     ap = argparse.ArgumentParser()
@@ -448,6 +509,9 @@ def main(argv=None):
         traceback.print_exc()
         print('HARNESS-ERROR property=%s cannot import property module' % pid)
         return 2
+    nshards = int(os.environ.get('VERIF_SHARDS', '8' if args.tier == 'thorough' else '1'))
+    if nshards > 1 and not args.replay and 'VERIF_SHARD_ID' not in os.environ and getattr(mod, 'SHARDABLE', True):
+        return run_sharded(pid, args, seed, nshards, getattr(mod, 'LEVEL', 'exploration'))
     ctx = Ctx(pid, args.tier, seed, level=getattr(mod, 'LEVEL', 'exploration'))
     ctx.only = set(args.only.split(',')) if args.only else None
     try:
